@@ -10,15 +10,72 @@ from vlib import Check, run_tlc, tlc_ok, MachineryError
 
 PROP = "C14"
 WORKERS = int(os.environ.get("VERIF_WORKERS", "8"))
-KIND = {"data": 0, "bss": 1, "ref": 2, "lref": 3, "expr": 4, "proto": 5}
+KIND = {"data": 0, "bss": 1, "ref": 2, "lref": 3, "expr": 4, "proto": 5, "str": 6}
 TYPES = ["i8", "u8", "i16", "u16", "i32", "u32", "i64", "u64", "f", "d", "ld", "p"]
 TKIND = {"item": 0, "ext": 1, "mod": 2, "func": 3}
 ENGINES = ["interp", "gen", "lazy_gen", "lazy_bb_gen"]
 
 
+INT_T = {"i8": 1, "u8": 1, "i16": 2, "u16": 2, "i32": 4, "u32": 4, "i64": 8, "u64": 8}
+EXPR_TXT = {"i8": "-91", "i16": "-19916", "i32": "-1985229329", "i64": "1234605616436508552", "f": "1.5f", "d": "-2.25", "ld": "1.5l"}
+
+
+def esc(bs):
+    """MIR string literal for the bytes: letters/digits as they are, everything else as a 3-digit octal escape"""
+    return "".join(chr(b) if (48 <= b <= 57 or 65 <= b <= 90 or 97 <= b <= 122) else "\\%03o" % b for b in bs)
+
+
+def render_text(case):
+    """The module of the case as MIR text (None when an item has no textual form: float/pointer data values are not
+    printed, an anonymous item cannot be the target of a textual ref)."""
+    its, exp, decl = case["it"], case["exp"], case["decl"]
+    T = ["m: module", "  import ext1, modd"]
+    for i, it in enumerate(its, 1):
+        if it[0] == "ref" and exp[i - 1][1] == "item" and exp[i - 1][2] > i:
+            T.append("  forward d%d" % exp[i - 1][2])
+    T += ["lf: func i64, i64:a, i64:out", "  local i64:r, i64:t", "  mov r, a", "  bt L2, r",
+          "L1:", "  add r, r, 1", "L2:", "  add r, r, 2", "L3:", "  add r, r, 3",
+          "  laddr t, L1", "  mov i64:(out), t", "  laddr t, L2", "  mov i64:8(out), t", "  laddr t, L3", "  mov i64:16(out), t",
+          "  ret r", "  endfunc"]
+    for t in sorted({it[2] for it in its if it[0] == "expr"}):
+        T += ["e_%s: func %s" % (t, t), "  ret %s" % EXPR_TXT[t], "  endfunc"]
+    for i, (it, ex) in enumerate(zip(its, exp), 1):
+        k, nm, t, n, tg, d, l1, l2 = it
+        lab = ("d%d: " % i) if nm and k != "proto" else "  "
+        if k == "data":
+            if t not in INT_T:
+                return None
+            sz = INT_T[t]
+            vals = [int.from_bytes(bytes(ex[1][j:j + sz]), "little", signed=(t[0] == "i")) for j in range(0, len(ex[1]), sz)]
+            if not vals:
+                return None          # the text syntax needs at least one value
+            T.append("%s%s %s" % (lab, t, ", ".join(map(str, vals))))
+        elif k == "bss":
+            T.append("%sbss %d" % (lab, n))
+        elif k == "ref":
+            if ex[1] == "item":
+                if not its[ex[2] - 1][1] or its[ex[2] - 1][0] == "proto":
+                    return None
+                tn = "d%d" % ex[2]
+            else:
+                tn = {"ext": "ext1", "mod": "modd", "func": "lf"}[ex[1]]
+            T.append("%sref %s, %d" % (lab, tn, d))
+        elif k == "lref":
+            T.append("%slref L%d%s, %d" % (lab, l1, (", L%d" % l2) if l2 else "", d))
+        elif k == "expr":
+            T.append("%sexpr e_%s" % (lab, t))
+        elif k == "str":
+            T.append('%sstring "%s"' % (lab, esc(decl[i - 1])))
+        else:
+            T.append("pr%d: proto" % i)
+    T.append("  endmodule")
+    return "\n".join(T) + "\n"
+
+
 def txt_case(idx, case, engine):
     its, lay, secs, exp = case["it"], case["lay"], case["secs"], case["exp"]
-    L = ["C %d %d %d" % (idx, engine, len(its))]
+    form = 1 if case.get("form") == "text" else 0
+    L = ["C %d %d %d %d" % (idx, engine, len(its), form)]
     for i, (it, la, se, ex) in enumerate(zip(its, lay, secs, exp)):
         k, nm, t, n, tg, d, l1, l2 = it
         tk = ti = 0
@@ -32,10 +89,13 @@ def txt_case(idx, case, engine):
             ed = ex[3]
             if (ex[1], ex[2]) != (l1, l2):
                 raise MachineryError("lref labels mismatch in emitted case")
-        init = case.get("init", {}).get(str(i), by)      # selftest only: declare other bytes than the expected ones
+        init = case["decl"][i] if k == "str" else by
+        init = case.get("init", {}).get(str(i), init)    # selftest only: declare other bytes than the expected ones
         L.append("I %d %d %d %d %d %d %d %d %d %d %d %d %d %d %d %s %d %s" % (
             KIND[k], nm, TYPES.index(t) if t else 0, n, d, l1, l2, la[0], la[1], la[2], se[0] if se else -1, tk, ti, ed,
             len(by), " ".join(map(str, by)), len(init), " ".join(map(str, init))))
+    if form:
+        L.append("T " + (case.get("text") or render_text(case)).encode().hex())
     L.append("E")
     return "\n".join(L)
 
@@ -92,14 +152,19 @@ def run_chunk(items):
 
 
 def describe(case):
-    return "; ".join("%s%s" % ("N:" if it[1] else "", it[0] + (" %s[%d]" % (it[2], it[3]) if it[0] == "data" else
+    return ("[text] " if case.get("form") == "text" else "") + "; ".join("%s%s" % ("N:" if it[1] else "", it[0] + (" %s[%d]" % (it[2], it[3]) if it[0] == "data" else
                                                             " %d" % it[3] if it[0] == "bss" else " " + it[2] if it[0] == "expr" else
-                                                            " %s%+d" % (it[4], it[5]) if it[0] == "ref" else ""))
+                                                            " %s%+d" % (it[4], it[5]) if it[0] == "ref" else
+                                                            "#%d" % it[3] if it[0] == "str" else ""))
                      for it in case["it"])
 
 
 def finding_key(key, engine, case, itn):
     eng = ENGINES[engine]
+    if key == "lref_not_filled":
+        # which label references head a section?  (MIR_load_module looks for lref items only at section heads)
+        heads = any(it[0] == "lref" and la[0] == i + 1 for i, (it, la) in enumerate(zip(case["it"], case["lay"])))
+        return "lref_not_filled:%s" % ("some_lref_heads_a_section" if heads else "no_lref_heads_a_section")
     if key in ("lref_diff", "lref_addr"):
         return "%s:%s" % (key, eng)
     if key == "crash":
@@ -176,7 +241,16 @@ def generate(cfg, part, nparts):
     if r.rc == 12 or r.violation:
         raise MachineryError("model-level property violated in %s: %s\n%s" % (cfg, r.violation, r.out[-2000:]))
     tlc_ok(r, cfg)
-    return r.outs, r.states, r.distinct, r.wall
+    outs, skipped = [], 0
+    for c in r.outs:
+        if c.get("form") == "text":
+            c["text"] = render_text(c)
+            if c["text"] is None:
+                skipped += 1            # no textual form for this sequence: only its API form is replayed
+                continue
+        outs.append(c)
+    generate.skipped = skipped
+    return outs, r.states, r.distinct, r.wall
 
 
 def has_lref(case):
@@ -209,6 +283,8 @@ def run(tier, mutate=None):
                 ck.add("sequences_" + ENGINES[e], len(lcases))
             c_gen += len(lcases) * len(lengines)
             ck.add("sequences_interp", len(cases))
+            ck.add("sequences_text_form", sum(1 for c in cases if c.get("form") == "text"))
+            ck.add("text_form_not_expressible", generate.skipped)
             ck.add("items_checked", sum(len(c["it"]) for c in cases) + sum(len(c["it"]) for c in lcases) * len(lengines))
             ck.add("sections_checked", sum(1 for c in cases for s in c["secs"] if s))
             tot_cases += len(cases) + len(lcases) * len(lengines)
@@ -222,12 +298,15 @@ def run(tier, mutate=None):
     ck.setc("traces_validated_against_impl", tot_cases)
     ck.setc("exhaustive", True)
     ck.setc("rule", "every item sequence of the plan (alphabet x length) is emitted with Layout/Contents of MIRData.tla and built "
-                    "through MIR_new_data/bss/ref_data/lref_data/expr_data/proto, loaded with a recording MIR_alloc_t and linked; "
+                    "through MIR_new_data/string_data/bss/ref_data/lref_data/expr_data/proto (sequences with string items also as MIR text through "
+                    "MIR_scan_string), loaded with a recording MIR_alloc_t and linked; "
                     "compared: head is a block of >= section size, addr(i)-addr(head)=offset, section_head_p, every byte of "
                     "data/bss/expr, ref = Addr(target)+disp, lref = A(l1)[-A(l2)]+disp after preparing the function (interp and gen)")
     ck.setc("trusted_base", ["TLC 1.8", "clang ASan/UBSan", "harness/c14_data.c"])
     ck.assumptions += ["x86-64 sizes (pointer 8, long double 16 with 10 value bytes compared)",
-                       "label addresses are compared relationally through one-label references of the same function and engine"]
+                       "label addresses are compared relationally: A(l) is what laddr gives inside the same function under the same engine",
+                       "deviation modelled: DevTextStringTerminator (textual string gets no terminating zero when empty or already zero-terminated)",
+                       "text form only for sequences with a string item whose other items have a textual form (integer data with >= 1 value, named ref targets)"]
     return ck.finish()
 
 
@@ -266,7 +345,13 @@ def selftest():
     c["init"] = {"0": list(c["exp"][0][1])}
     c["exp"][0][1][3] ^= 0x80
     tests.append(("expected expr value changed", c))
-    c = pick(lambda c: len(c["it"]) == 2 and c["it"][1][0] == "lref" and c["it"][1][6] and c["it"][1][7] == 0)
+    c = pick(lambda c: c.get("form") == "api" and len(c["it"]) == 2 and c["it"][1][0] == "str" and c["it"][1][3] == 7 and c["it"][0][0] == "str")
+    c["exp"][1][1][3] ^= 2                      # byte after the embedded zero of "ab\\0cd"
+    tests.append(("expected string byte after an embedded zero changed", c))
+    c = pick(lambda c: c.get("form") == "text" and len(c["it"]) == 2 and c["it"][0][0] == "str" and c["it"][0][3] == 7 and c["lay"][1][1] == 6)
+    c["lay"][1][1] = 5                          # as if the text form had no terminating zero
+    tests.append(("text form: item after a string expected one byte earlier", c))
+    c = pick(lambda c: len(c["it"]) == 2 and c["it"][1][0] == "lref" and c["it"][1][1] == 1 and c["it"][1][6] and c["it"][1][7] == 0)
     c["exp"][1][3] += 1
     tests.append(("expected lref displacement + 1", c))
     c = pick(lambda c: c["secs"][0] and c["secs"][0][0] >= 16)
